@@ -1,0 +1,83 @@
+//! Verification hooks (compiled only with `--cfg marwood_verif`).
+//!
+//! Read-only accessors to the VM state plus two switches: a forced-collection cadence
+//! and a single-step entry point. Nothing here is compiled into a normal build.
+use crate::vm::environment::GlobalEnvironment;
+use crate::vm::heap::Heap;
+use crate::vm::stack::Stack;
+use crate::vm::vcell::VCell;
+use crate::vm::Vm;
+
+#[derive(Debug, Default)]
+pub struct VerifState {
+    /// collect before every `gc_every`-th instruction executed by `run_count`
+    pub gc_every: Option<usize>,
+    /// collect before the instruction with these ordinal numbers (counted per VM)
+    pub gc_at: Vec<u64>,
+    /// bypass the utilisation test of `run_gc` for the next call
+    pub force_gc: bool,
+    /// instructions executed by `run_count` / `verif_step` since the VM was created
+    pub instructions: u64,
+    /// collections that actually ran (marked and swept)
+    pub collections: u64,
+}
+
+impl Vm {
+    pub fn verif_set_gc_every(&mut self, every: Option<usize>) {
+        self.verif.gc_every = every;
+    }
+
+    pub fn verif_set_gc_at(&mut self, at: Vec<u64>) {
+        self.verif.gc_at = at;
+    }
+
+    /// Run a collection now, regardless of heap utilisation.
+    pub fn verif_force_gc(&mut self) {
+        self.verif.force_gc = true;
+        self.run_gc();
+        self.verif.force_gc = false;
+    }
+
+    /// Called by `run_count` before each instruction.
+    pub(crate) fn verif_pre_instruction(&mut self) {
+        self.verif.instructions += 1;
+        let n = self.verif.instructions;
+        let due = match self.verif.gc_every {
+            Some(k) if k > 0 => n % (k as u64) == 0,
+            _ => false,
+        } || self.verif.gc_at.contains(&n);
+        if due {
+            self.verif_force_gc();
+        }
+    }
+
+    pub(crate) fn verif_count_instruction(&mut self) {
+        self.verif.instructions += 1;
+    }
+
+    pub fn verif_state(&self) -> &VerifState {
+        &self.verif
+    }
+
+    pub fn verif_heap(&self) -> &Heap {
+        &self.heap
+    }
+
+    pub fn verif_heap_mut(&mut self) -> &mut Heap {
+        &mut self.heap
+    }
+
+    pub fn verif_stack(&self) -> &Stack {
+        &self.stack
+    }
+
+    pub fn verif_globenv(&self) -> &GlobalEnvironment {
+        &self.globenv
+    }
+
+    /// (acc, ep, ip, bp)
+    pub fn verif_regs(&self) -> (&VCell, usize, (usize, usize), usize) {
+        (&self.acc, self.ep, self.ip, self.bp)
+    }
+}
+
